@@ -33,7 +33,8 @@
             had accumulated when it raised (total_bytes minus what read_nowait() still finds buffered;
             -1: not observable)
      stuck  nothing is runnable, all input was delivered, the application still waits
-            (k = 1: the parser holds input back although nobody is paused)
+            (k = 1: the parser holds input back although nobody is paused; s = "error-set": the
+            stream's exception() is already set - the error never reached the waiting read)
      budget the step budget was exhausted
      end    always last
    obs = {size, low, high, consumed, steps, st}: size = total_bytes - consumed (public counters),
@@ -53,7 +54,10 @@
                                 HttpPayloadParser._paused flag was observed (st = 1)
      TruncatedStreamCleanEof    a coded stream that stops before its end marker (gzip / br / zstd)
                                 with intact HTTP framing ends in a clean EOF
-   (the same for deflate is the ordinary property clause TruncatedDeflateCleanEof)                    *)
+   (the same for deflate is the ordinary property clause TruncatedDeflateCleanEof)
+     ErrorSetReaderWaits        hang although the stream already carries the payload error: the error was
+                                set between a data-less wake-up (end of an HTTP chunk) and the moment the
+                                woken read ran, when there is no waiter to notify, and the read waits again                    *)
 EXTENDS Naturals, Integers, Sequences, TLC, TraceBatch
 
 VARIABLES tid, l, outcome, errSeen, tot, dg, stale, bad
@@ -129,7 +133,8 @@ EvBad(e) ==
                 ELSE IF e.s = "payload"
                 THEN IF ~ErrExpected THEN "SpuriousError" ELSE ""
                 ELSE IF ErrExpected THEN "WrongErrorKind" ELSE "SpuriousError"
-           [] e.ev = "stuck" -> IF e.k = 1 \/ stale \/ o.st = 1 THEN "StalePauseStuck" ELSE "Stuck"
+           [] e.ev = "stuck" -> IF e.k = 1 \/ stale \/ o.st = 1 THEN "StalePauseStuck"
+                                ELSE IF e.s = "error-set" THEN "ErrorSetReaderWaits" ELSE "Stuck"
            [] e.ev = "budget" -> "Livelock"
            [] e.ev = "end" ->
                 IF outcome = "" THEN "Stuck"
